@@ -431,7 +431,10 @@ theorem roundtrip_signed_spec (v : BMNumber) (h : WFS64 v) :
   have hlen : bytes.length = 8 := h.len
   have hok : bytesOK bytes := h.ok
   have hv : valOf bytes < 18446744073709551616 := valOf_lt_two64 hok hlen
-  simp only [exportStringSpec, hlen, if_true, signedDec, two63, two64]
+  have hsx : sext 64 (valOf bytes) = valOf bytes := by
+    unfold sext; rw [if_neg (by omega)]
+  simp only [exportStringSpec, hlen, hsx, signedDec, two63, two64]
+  rw [if_pos (by decide)]
   by_cases hs : valOf bytes < 9223372036854775808
   · simp only [hs, if_true, Option.bind_some, importString, classify_signed_pos, importLit,
       ofDigits_digits (by decide : 2 ≤ 10) (by decide : 10 ≤ 16), Bool.false_eq_true, if_false,
@@ -538,32 +541,64 @@ theorem hexSized_bits {sz ds : List Nat} {v : BMNumber}
 
 /-! ### ImportUint / ImportBytes / ExportUint64 -/
 
-theorem valOf_importUint {w v : Nat} (optBits : Int) (hv : v < 2 ^ w) (hw : w % 8 = 0) :
+theorem importUint_native (w v : Nat) {optBits : Int} (h : optBits ≤ 0) :
+    importUint w v optBits = ⟨toBytesLE (w / 8) v, w, .unsigned⟩ := by
+  unfold importUint
+  rw [if_neg (by omega)]
+
+theorem importUint_override (w v : Nat) {optBits : Int} (h : 0 < optBits) :
+    importUint w v optBits =
+      ⟨toBytesLE ((optBits.toNat + 7) / 8) (v % 2 ^ optBits.toNat), optBits.toNat, .unsigned⟩ := by
+  unfold importUint
+  rw [if_pos h]
+
+theorem pow256_eq (k : Nat) : (256 : Nat) ^ k = 2 ^ (8 * k) := by
+  calc (256 : Nat) ^ k = (2 ^ 8) ^ k := by rfl
+    _ = 2 ^ (8 * k) := by rw [Nat.pow_mul]
+
+theorem valOf_importUint {w v : Nat} {optBits : Int} (hob : optBits ≤ 0) (hv : v < 2 ^ w) (hw : w % 8 = 0) :
     valOf (importUint w v optBits).bytes = v := by
+  rw [importUint_native w v hob]
   show valOf (toBytesLE (w / 8) v) = v
   rw [valOf_toBytesLE]
   apply Nat.mod_eq_of_lt
-  have e : (256 : Nat) ^ (w / 8) = 2 ^ w := by
-    have : w = 8 * (w / 8) := by omega
-    calc (256 : Nat) ^ (w / 8) = (2 ^ 8) ^ (w / 8) := by rfl
-      _ = 2 ^ (8 * (w / 8)) := by rw [Nat.pow_mul]
-      _ = 2 ^ w := by rw [← this]
-  rw [e]; exact hv
+  have : w = 8 * (w / 8) := by omega
+  rw [pow256_eq, ← this]; exact hv
 
-theorem exportUint64_importUint {w v : Nat} (optBits : Int) (hv : v < 2 ^ w) (hw : w % 8 = 0)
+/-- with a positive width the bytes denote the value reduced to that width, in exactly ⌈n/8⌉ bytes -/
+theorem valOf_importUint_override (w v : Nat) {optBits : Int} (h : 0 < optBits) :
+    valOf (importUint w v optBits).bytes = v % 2 ^ optBits.toNat ∧
+    (importUint w v optBits).bytes.length = (optBits.toNat + 7) / 8 ∧
+    (importUint w v optBits).bits = optBits.toNat := by
+  rw [importUint_override w v h]
+  refine ⟨?_, toBytesLE_length _ _, rfl⟩
+  show valOf (toBytesLE ((optBits.toNat + 7) / 8) (v % 2 ^ optBits.toNat)) = v % 2 ^ optBits.toNat
+  rw [valOf_toBytesLE]
+  apply Nat.mod_eq_of_lt
+  have h1 : v % 2 ^ optBits.toNat < 2 ^ optBits.toNat := Nat.mod_lt _ (Nat.two_pow_pos _)
+  have h2 : (2 : Nat) ^ optBits.toNat ≤ 2 ^ (8 * ((optBits.toNat + 7) / 8)) :=
+    Nat.pow_le_pow_right (by decide) (by omega)
+  rw [pow256_eq]; omega
+
+theorem exportUint64_importUint {w v : Nat} {optBits : Int} (hob : optBits ≤ 0) (hv : v < 2 ^ w) (hw : w % 8 = 0)
     (h64 : w ≤ 64) : exportUint64 (importUint w v optBits) = some v := by
-  have hl : (importUint w v optBits).bytes.length = w / 8 := toBytesLE_length _ _
+  have hval := valOf_importUint hob hv hw
+  rw [importUint_native w v hob] at hval ⊢
   unfold exportUint64
-  rw [if_neg (by rw [hl]; omega), valOf_importUint optBits hv hw]
+  rw [if_neg (by show ¬ 8 < (toBytesLE (w / 8) v).length; rw [toBytesLE_length]; omega), hval]
 
-theorem importUint64_wf {v : Nat} (_hv : v < 2 ^ 64) : WFU64 (importUint 64 v 0) :=
-  ⟨rfl, bytesOK_toBytesLE _ _, toBytesLE_length _ _, rfl⟩
+theorem importUint64_wf {v : Nat} (_hv : v < 2 ^ 64) : WFU64 (importUint 64 v 0) := by
+  rw [importUint_native 64 v (by decide)]
+  exact ⟨rfl, bytesOK_toBytesLE _ _, toBytesLE_length _ _, rfl⟩
 
-theorem importUint_reimport {w v : Nat} (optBits : Int) (hv : v < 2 ^ w) (hw : w % 8 = 0) (h64 : w ≤ 64) :
+theorem importUint_reimport {w v : Nat} {optBits : Int} (hob : optBits ≤ 0) (hv : v < 2 ^ w) (hw : w % 8 = 0)
+    (h64 : w ≤ 64) :
     (exportString (importUint w v optBits)).bind importString = some ⟨toBytesLE 8 v, 64, .unsigned⟩ := by
-  have h := unsigned_reimport_is_64 (importUint w v optBits) rfl (bytesOK_toBytesLE _ _)
+  have hval := valOf_importUint hob hv hw
+  rw [importUint_native w v hob] at hval ⊢
+  have h := unsigned_reimport_is_64 ⟨toBytesLE (w / 8) v, w, .unsigned⟩ rfl (bytesOK_toBytesLE _ _)
     (by show (toBytesLE (w / 8) v).length ≤ 8; rw [toBytesLE_length]; omega)
-  rw [valOf_importUint optBits hv hw] at h
+  rw [hval] at h
   exact h
 
 theorem valOf_reverse_importBytes (be : List Nat) (bits : Nat) :
@@ -667,33 +702,37 @@ theorem import_readd_unsigned (n : Nat) :
     (in particular for the 'any size' sentinel −1 the simulator passes for hex / bin / unsigned) -/
 theorem importUint_bits_sentinel (w v : Nat) (optBits : Int) (h : optBits ≤ 0) :
     (importUint w v optBits).bits = w := by
-  show (if 0 < optBits then optBits.toNat else w) = w
-  rw [if_neg (by omega)]
+  rw [importUint_native w v h]
 
 theorem importUint_bits_override (w v : Nat) (optBits : Int) (h : 0 < optBits) :
     (importUint w v optBits).bits = optBits.toNat := by
-  show (if 0 < optBits then optBits.toNat else w) = optBits.toNat
-  rw [if_pos h]
+  rw [importUint_override w v h]
 
 /-- the simulator's show path for a bin register: `ImportUint(v, -1)`, `CastType(bin)` is a
     well-formed bin value of the register's width, so `roundtrip_bin` applies to it -/
 theorem show_bin_wf {w v : Nat} (hv : v < 2 ^ w) (hw : w % 8 = 0) (hpos : 8 ≤ w) (h64 : w ≤ 64) :
     WFBin (castType (importUint w v (-1)) .bin) := by
+  rw [importUint_native w v (by decide)]
   refine ⟨rfl, bytesOK_toBytesLE _ _, ?_, ?_, ?_, ?_⟩
   · show (toBytesLE (w / 8) v).length = (w - 1) / 8 + 1
     rw [toBytesLE_length]; omega
   · show 1 ≤ w; omega
   · show w < two63; unfold two63; omega
   · show valOf (toBytesLE (w / 8) v) < 2 ^ w
-    have e : valOf (toBytesLE (w / 8) v) = v := valOf_importUint (-1) hv hw
-    rw [e]; exact hv
+    have e := valOf_importUint (optBits := -1) (by decide) hv hw
+    rw [importUint_native w v (by decide)] at e
+    have e' : valOf (toBytesLE (w / 8) v) = v := e
+    rw [e']; exact hv
 
 theorem show_hex_wf {w v : Nat} (hv : v < 2 ^ w) (hw : w % 8 = 0) (hpos : 8 ≤ w) (h64 : w ≤ 64) :
     WFHex (castType (importUint w v (-1)) .hex) := by
+  rw [importUint_native w v (by decide)]
   refine ⟨rfl, bytesOK_toBytesLE _ _, hw, hpos, ?_, ?_⟩
   · show w < two63; unfold two63; omega
   · show valOf (toBytesLE (w / 8) v) < 2 ^ w
-    have e : valOf (toBytesLE (w / 8) v) = v := valOf_importUint (-1) hv hw
-    rw [e]; exact hv
+    have e := valOf_importUint (optBits := -1) (by decide) hv hw
+    rw [importUint_native w v (by decide)] at e
+    have e' : valOf (toBytesLE (w / 8) v) = v := e
+    rw [e']; exact hv
 
 end BMV.Numbers
